@@ -44,6 +44,11 @@ type Opt struct {
 	// SpecPrefixOrder writes warnings before the custom payload (the order of the specs); false
 	// writes the custom payload first.
 	SpecPrefixOrder bool
+	// GlobalFlagWithNoMetadata also sets Global_tables_spec (0x0001) on a Rows metadata that has
+	// No_metadata (0x0004) set. The specs say that with No_metadata the metadata consists of the flags,
+	// the column count and the optional paging state only, "so no <global_table_spec> nor <col_spec_i>":
+	// the other bit is then irrelevant (servers answer EXECUTE with skip_metadata like this).
+	GlobalFlagWithNoMetadata bool
 }
 
 type w struct {
@@ -254,6 +259,9 @@ func (x *w) rowsMetadata(m *message.RowsMetadata, v V) {
 	global := sameTable(m.Columns) && !(x.opt != nil && x.opt.NoGlobalSpec)
 	if len(m.Columns) == 0 {
 		flags |= 0x0004 // no metadata
+		if x.opt != nil && x.opt.GlobalFlagWithNoMetadata {
+			flags |= 0x0001
+		}
 	} else if global {
 		flags |= 0x0001
 	}
@@ -737,7 +745,7 @@ func fact(n int) int {
 // of map entries, for the given choice of the other options. Maps of more than 3 entries use
 // sorted order only.
 func EncodeAll(f *frame.Frame, base Opt) [][]byte {
-	first, maps := encodeOne(f, &Opt{NoGlobalSpec: base.NoGlobalSpec, SpecPrefixOrder: base.SpecPrefixOrder})
+	first, maps := encodeOne(f, &Opt{NoGlobalSpec: base.NoGlobalSpec, SpecPrefixOrder: base.SpecPrefixOrder, GlobalFlagWithNoMetadata: base.GlobalFlagWithNoMetadata})
 	out := [][]byte{first}
 	if len(maps) == 0 {
 		return out
@@ -758,7 +766,7 @@ func EncodeAll(f *frame.Frame, base Opt) [][]byte {
 			perm[i] = x % sizes[i]
 			x /= sizes[i]
 		}
-		b, _ := encodeOne(f, &Opt{perm: perm, NoGlobalSpec: base.NoGlobalSpec, SpecPrefixOrder: base.SpecPrefixOrder})
+		b, _ := encodeOne(f, &Opt{perm: perm, NoGlobalSpec: base.NoGlobalSpec, SpecPrefixOrder: base.SpecPrefixOrder, GlobalFlagWithNoMetadata: base.GlobalFlagWithNoMetadata})
 		out = append(out, b)
 	}
 	return out
